@@ -5,7 +5,6 @@ package statedb
 
 import (
 	"bytes"
-	"encoding/binary"
 
 	"github.com/cilium/statedb/index"
 	"github.com/cilium/statedb/part"
@@ -446,26 +445,35 @@ func encodeNonUniqueKey(primary, secondary index.Key) []byte {
 		encodedLength(secondary)+
 			1 /* delimiter */ +
 			encodedLength(primary)+
-			2 /* primary length */)
+			2 /* terminator */)
 
 	_, key = appendEncode(key, secondary)
 	key = append(key, 0x00)
-	primaryLen, key := appendEncode(key, primary)
-	return binary.BigEndian.AppendUint16(key, uint16(primaryLen))
+	_, key = appendEncode(key, primary)
+	// Terminate the primary key with 0x00, which is smaller than any byte of an
+	// escaped key, to keep the order when a primary key is a prefix of another
+	// (a length suffix here would compare against the continuation of the longer
+	// key). The second byte keeps the key length unchanged.
+	return append(key, nonUniqueSeparator, nonUniqueSeparator)
 }
 
 type nonUniqueKey []byte
 
 func (k nonUniqueKey) primaryLen() int {
-	// Non-unique key is [<secondary...>, 0x00, <primary...>, <primary length>]
+	// Non-unique key is [<secondary...>, 0x00, <primary...>, 0x00, 0x00]
 	if len(k) <= 3 {
 		return 0
 	}
-	return int(binary.BigEndian.Uint16(k[len(k)-2:]))
+	return len(k) - k.secondaryLen() - 3
 }
 
 func (k nonUniqueKey) secondaryLen() int {
-	return len(k) - k.primaryLen() - 3
+	// The escaped secondary key does not contain 0x00, hence the first 0x00
+	// is the separator.
+	if idx := bytes.IndexByte(k, nonUniqueSeparator); idx >= 0 {
+		return idx
+	}
+	return len(k)
 }
 
 func (k nonUniqueKey) encodedPrimary() []byte {
